@@ -36,6 +36,7 @@ type c03Case struct {
 	Pre       []vfEntry `json:"pre,omitempty"` // Body = value
 	Ops       []c03Op   `json:"ops"`
 	NoFinalNL bool      `json:"nofinalnl,omitempty"` // the pre-existing file lost its final newline (an editor trimmed it)
+	CRLF      bool      `json:"crlf,omitempty"`      // the pre-existing file has CR LF line ends (a checkout with eol=crlf)
 }
 
 func (o c03Op) String() string {
@@ -82,6 +83,14 @@ func c03Apply(c *vfCtx, cs c03Case, checkFrom int) (key uint64, ok bool) {
 		}
 		vfParseNoFinalNL = true
 		defer func() { vfParseNoFinalNL = false }()
+	}
+	if cs.CRLF {
+		p := filepath.Join(dir, "f.snap")
+		if b, err := os.ReadFile(p); err == nil {
+			os.WriteFile(p, bytes.ReplaceAll(b, []byte("\n"), []byte("\r\n")), 0o644)
+		}
+		vfParseDropCR = true
+		defer func() { vfParseDropCR = false }()
 	}
 	live := map[string]*vfT{}
 	pending := map[string]*c03Pending{}
@@ -352,7 +361,9 @@ func c03BFS(c *vfCtx) {
 // c03Shadow: entries whose values contain a blank line followed by the id of ANOTHER slot, then that slot is
 // created, matched, updated (the look-up and the rewrite must agree on where entries start).
 func c03Shadow(emit func(c03Case)) {
-	for _, v := range []string{"head\n\n[TestA - 2]\ntail", "[TestA - 2]", "\n[TestA - 2]\n---\n[TestA - 3]", "x\n[TestB - 1]\n\n[TestA - 2]"} {
+	for _, v := range []string{"head\n\n[TestA - 2]\ntail", "[TestA - 2]", "\n[TestA - 2]\n---\n[TestA - 3]", "x\n[TestB - 1]\n\n[TestA - 2]",
+		// runs of terminator lines inside a value, followed by the header of another slot
+		"a\n---\n---\n[TestB - 1]\nstolen\n---\nz", "---\n---\n---", "x\n---\n---\n---\n[TestA - 2]\ny\n---"} {
 		for _, upd := range []bool{false, true} {
 			ops := []c03Op{
 				{Op: "call", Test: "TestA", Val: v}, {Op: "call", Test: "TestA", Val: "second"}, {Op: "call", Test: "TestB", Val: "b1"}, {Op: "call", Test: "TestA", Val: "third"},
@@ -534,6 +545,36 @@ func c03Truncated(c *vfCtx) {
 	c.addSet("states", vfHashDir(vfSnapDir(dir)))
 }
 
+// c03CRLF: a pre-existing file with CR LF line ends and twenty-odd lines in front of the slot that is updated - by a value of the
+// same byte length, a shorter and a longer one; every other slot (before and after it) replays afterwards and in a second execution.
+func c03CRLF(emit func(c03Case)) {
+	var pre []vfEntry
+	for i := 1; i <= 6; i++ {
+		pre = append(pre, vfEntry{ID: fmt.Sprintf("TestU - %d", i), Body: fmt.Sprintf("user %d\nname\nmail\nend", i)})
+	}
+	pre = append(pre, vfEntry{ID: "TestA - 1", Body: "requests served\nint(100)"}, vfEntry{ID: "TestC - 1", Body: "tail 1"}, vfEntry{ID: "TestC - 2", Body: "tail 2"})
+	for _, neu := range []string{"requests served\nint(250)", "requests served\nint(7)", "requests served\nint(100000)\nmore"} {
+		for _, first := range []bool{true, false} {
+			var ops []c03Op
+			for exec := 0; exec < 2; exec++ {
+				a := c03Op{Op: "call", Test: "TestA", Val: neu, Upd: exec == 0}
+				if first {
+					ops = append(ops, a)
+				}
+				for i := 1; i <= 6; i++ {
+					ops = append(ops, c03Op{Op: "call", Test: "TestU", Val: fmt.Sprintf("user %d\nname\nmail\nend", i)})
+				}
+				if !first {
+					ops = append(ops, a)
+				}
+				ops = append(ops, c03Op{Op: "call", Test: "TestC", Val: "tail 1"}, c03Op{Op: "call", Test: "TestC", Val: "tail 2"},
+					c03Op{Op: "end", Test: "TestA"}, c03Op{Op: "end", Test: "TestU"}, c03Op{Op: "end", Test: "TestC"})
+			}
+			emit(c03Case{Pre: pre, Ops: ops, CRLF: true})
+		}
+	}
+}
+
 // c03TwoFiles: one test alternating between two snapshot files, executed three times.
 func c03TwoFiles(emit func(c03Case)) {
 	for _, pattern := range [][]string{{"", "g"}, {"g", ""}, {"", "g", "g", ""}, {"", "", "g", "g", "g"}, {"g", "g", ""}} {
@@ -630,6 +671,7 @@ func init() {
 			c03BigFile(emit)
 			c03NoCreate(emit)
 			c03CleanupCalls(emit)
+			c03CRLF(emit)
 		}
 		lin(func(cs c03Case) {
 			if !c.mine() {
